@@ -299,7 +299,13 @@ func Ite(c, a, b *Term) *Term {
 	if a.Op == "ite" && a.Args[0] == c {
 		return Ite(c, a.Args[1], b)
 	}
-	return mk("ite", a.S, 0, "", 0, 0, c, a, b)
+	r := mk("ite", a.S, 0, "", 0, 0, c, a, b)
+	if a.IsConst() && c.Op == "=" {
+		if id := identityChain(r); id != nil {
+			return id
+		}
+	}
+	return r
 }
 func Eq(a, b *Term) *Term {
 	if a == b {
@@ -332,6 +338,9 @@ func Eq(a, b *Term) *Term {
 	if a.Op == "ite" && (b.IsConst() || b.Op == "strlit") && isLit(a.Args[1]) && isLit(a.Args[2]) {
 		return Ite(a.Args[0], Eq(a.Args[1], b), Eq(a.Args[2], b))
 	}
+	if b.IsConst() && iteLits(a, 40) {
+		return mapIte(a, func(l *Term) *Term { return Eq(l, b) })
+	}
 	if b.Op == "ite" && (a.IsConst() || a.Op == "strlit") {
 		return Eq(b, a)
 	}
@@ -359,6 +368,77 @@ func Eq(a, b *Term) *Term {
 	}
 	return mk("=", BoolS, 0, "", 0, 0, a, b)
 }
+// iteLits: t is an ite tree whose leaves are all literals (at most max leaves)
+func iteLits(t *Term, max int) bool {
+	n := 0
+	var walk func(t *Term) bool
+	walk = func(t *Term) bool {
+		if t.Op == "ite" {
+			return walk(t.Args[1]) && walk(t.Args[2])
+		}
+		n++
+		return n <= max && t.IsConst()
+	}
+	return t.Op == "ite" && walk(t)
+}
+
+// mapIte applies f to the leaves of an ite tree
+func mapIte(t *Term, f func(*Term) *Term) *Term {
+	if t.Op == "ite" {
+		return Ite(t.Args[0], mapIte(t.Args[1], f), mapIte(t.Args[2], f))
+	}
+	return f(t)
+}
+
+// identityChain recognises  ite(x==0,0, ite(x==1,1, ... ite(x==14,14, 15|d)))  over a 4-bit-valued x
+// (x = y & 0xF) and returns zext(x); nil otherwise. (Hex-digit tables composed with their inverse.)
+func identityChain(t *Term) *Term {
+	if t.Op != "ite" || t.S.Kind != 1 {
+		return nil
+	}
+	var x *Term
+	seen := 0
+	cur := t
+	for cur.Op == "ite" {
+		c := cur.Args[0]
+		if c.Op != "=" {
+			return nil
+		}
+		var v, k *Term
+		if c.Args[0].IsConst() {
+			k, v = c.Args[0], c.Args[1]
+		} else if c.Args[1].IsConst() {
+			k, v = c.Args[1], c.Args[0]
+		} else {
+			return nil
+		}
+		if x == nil {
+			x = v
+		} else if x != v {
+			return nil
+		}
+		if !cur.Args[1].IsConst() || cur.Args[1].Val != k.Val || k.Val > 15 {
+			return nil
+		}
+		seen |= 1 << k.Val
+		cur = cur.Args[2]
+	}
+	if x == nil || !(x.Op == "bvand" && x.Args[1].IsConst() && x.Args[1].Val == 0xF) {
+		return nil
+	}
+	// all of 0..15 covered, or 0..14 covered and the default leaf is 15
+	if seen == 0xFFFF || (seen == 0x7FFF && cur.IsConst() && cur.Val == 15) {
+		if x.S.W == t.S.W {
+			return x
+		}
+		if x.S.W < t.S.W {
+			return ZExt(x, t.S.W)
+		}
+		return Extract(t.S.W-1, 0, x)
+	}
+	return nil
+}
+
 // splitAdd views t as base + constant
 func splitAdd(t *Term) (*Term, uint64) {
 	if t.Op == "bvadd" && t.Args[1].IsConst() {
@@ -450,6 +530,12 @@ func bin(op string, a, b *Term) *Term {
 		return Const(w, r)
 	}
 nofold:
+	if b.IsConst() && iteLits(a, 40) {
+		return mapIte(a, func(l *Term) *Term { return bin(op, l, b) })
+	}
+	if a.IsConst() && iteLits(b, 40) {
+		return mapIte(b, func(l *Term) *Term { return bin(op, a, l) })
+	}
 	switch op {
 	case "bvadd", "bvor", "bvxor":
 		if a.IsConst() && a.Val == 0 {
@@ -523,6 +609,12 @@ func cmp(op string, a, b *Term) *Term {
 	if a == b {
 		return BoolC(op == "bvule" || op == "bvsle")
 	}
+	if b.IsConst() && iteLits(a, 40) {
+		return mapIte(a, func(l *Term) *Term { return cmp(op, l, b) })
+	}
+	if a.IsConst() && iteLits(b, 40) {
+		return mapIte(b, func(l *Term) *Term { return cmp(op, a, l) })
+	}
 	if op == "bvult" && b.IsConst() && b.Val == 0 {
 		return tFalse
 	}
@@ -578,6 +670,9 @@ func Extract(hi, lo int, a *Term) *Term {
 	if a.Op == "ite" && a.Args[1].IsConst() && a.Args[2].IsConst() {
 		return Ite(a.Args[0], Extract(hi, lo, a.Args[1]), Extract(hi, lo, a.Args[2]))
 	}
+	if iteLits(a, 40) {
+		return mapIte(a, func(l *Term) *Term { return Extract(hi, lo, l) })
+	}
 	return mk("extract", BV(hi-lo+1), 0, "", hi, lo, a)
 }
 func ZExt(a *Term, to int) *Term {
@@ -589,6 +684,9 @@ func ZExt(a *Term, to int) *Term {
 	}
 	if a.Op == "zext" {
 		return ZExt(a.Args[0], to)
+	}
+	if iteLits(a, 40) {
+		return mapIte(a, func(l *Term) *Term { return ZExt(l, to) })
 	}
 	return mk("zext", BV(to), 0, "", to-a.S.W, 0, a)
 }
@@ -628,6 +726,13 @@ func Select(a, i *Term) *Term {
 		case "ite":
 			if a.Args[1].Op == "lambda" || a.Args[2].Op == "lambda" || a.Args[1].Op == "constarr" || a.Args[2].Op == "constarr" {
 				return Ite(a.Args[0], Select(a.Args[1], i), Select(a.Args[2], i))
+			}
+			// merged arrays: read both sides when at least one read resolves (a value stored at exactly i)
+			if !i.bound {
+				r1, r2 := Select(a.Args[1], i), Select(a.Args[2], i)
+				if r1.Op != "select" || r2.Op != "select" {
+					return Ite(a.Args[0], r1, r2)
+				}
 			}
 		}
 		break
